@@ -51,15 +51,17 @@ type SRepl struct {
 	Param   string // for regex function replacements: path name of the match parameter
 	Pos     token.Pos
 }
-type sVar struct{ id int } // value of a variable at loop/branch entry (internal marker)
+type SQuote struct{ Inner Shape } // %q of a string: a Go-syntax quoted literal of the inner text
+type sVar struct{ id int }        // value of a variable at loop/branch entry (internal marker)
 
-func (*SLit) shape()  {}
-func (*SHole) shape() {}
-func (*SCat) shape()  {}
-func (*SLoop) shape() {}
-func (*SAlt) shape()  {}
-func (*SRepl) shape() {}
-func (*sVar) shape()  {}
+func (*SLit) shape()   {}
+func (*SHole) shape()  {}
+func (*SCat) shape()   {}
+func (*SLoop) shape()  {}
+func (*SAlt) shape()   {}
+func (*SRepl) shape()  {}
+func (*SQuote) shape() {}
+func (*sVar) shape()   {}
 
 func cat(parts ...Shape) Shape {
 	var out []Shape
@@ -125,6 +127,8 @@ func shapeString(s Shape) string {
 		return "(" + shapeString(x.Body) + ")*[" + x.Var + " over " + x.Over + "]"
 	case *SAlt:
 		return "(" + x.CondPath + " ? " + shapeString(x.Then) + " : " + shapeString(x.Else) + ")"
+	case *SQuote:
+		return "quote(" + shapeString(x.Inner) + ")"
 	case *SRepl:
 		return "repl(" + shapeString(x.Base) + ", " + fmt.Sprintf("%q", x.Old) + " → " + shapeString(x.New) + ")"
 	case *sVar:
@@ -152,6 +156,8 @@ func walkShape(s Shape, f func(Shape)) {
 	case *SRepl:
 		walkShape(x.Base, f)
 		walkShape(x.New, f)
+	case *SQuote:
+		walkShape(x.Inner, f)
 	}
 }
 
@@ -167,16 +173,16 @@ type shapeFrame struct {
 }
 
 type ShapeEval struct {
-	c       *Ctx
-	config  map[string]bool       // path → value for mode conditions
-	fields  map[*types.Var]Shape  // string builder fields
-	fieldsP map[*types.Var]string // non-string builder fields: provenance path
+	c        *Ctx
+	config   map[string]bool       // path → value for mode conditions
+	fields   map[*types.Var]Shape  // string builder fields
+	fieldsP  map[*types.Var]string // non-string builder fields: provenance path
 	fieldPos map[*types.Var]token.Pos
-	errs    []string
-	nextVar int
-	depth   int
-	writes  []*types.Var // TS: order of f.WriteString(b.Field)
-	calls   []string     // builder methods evaluated, in order
+	errs     []string
+	nextVar  int
+	depth    int
+	writes   []*types.Var // TS: order of f.WriteString(b.Field)
+	calls    []string     // builder methods evaluated, in order
 }
 
 func newShapeEval(c *Ctx, config map[string]bool) *ShapeEval {
@@ -822,7 +828,9 @@ func (se *ShapeEval) sprintf(fr *shapeFrame, call *ast.CallExpr) Shape {
 				}
 				a := args[ai]
 				ai++
-				if isStringType(fr.info.TypeOf(a)) && v != 'q' {
+				if isStringType(fr.info.TypeOf(a)) && v == 'q' {
+					out = append(out, &SQuote{Inner: se.expr(fr, a)})
+				} else if isStringType(fr.info.TypeOf(a)) {
 					sh := se.expr(fr, a)
 					if h, ok := sh.(*SHole); ok {
 						h.Verb = string(v)
@@ -941,6 +949,8 @@ func substMarkers(s Shape, sub map[*sVar]Shape) Shape {
 		r.Base = substMarkers(x.Base, sub)
 		r.New = substMarkers(x.New, sub)
 		return &r
+	case *SQuote:
+		return &SQuote{Inner: substMarkers(x.Inner, sub)}
 	}
 	return s
 }
